@@ -275,7 +275,7 @@ func R09() Rule {
 		if nIterCalls < 2 {
 			c.Unknown("R09", "floor/iterator-calls", token.NoPos, "only %d callback invocations found in Rows implementations", nIterCalls)
 		}
-		if nAscend < 8 {
+		if nAscend < 6 {
 			c.Unknown("R09", "floor/ascend-methods", token.NoPos, "only %d Ascend* methods found", nAscend)
 		}
 	}}
